@@ -10,7 +10,9 @@ import (
 	"verif/checker/ssax"
 )
 
-func init() { Registry["C14"] = Spec{Run: runC14, Configs: notPlan9, MayFailToLoad: func(c core.Config, msg string) bool { return c.GOOS == "plan9" }} }
+func init() {
+	Registry["C14"] = Spec{Run: runC14, Configs: notPlan9, MayFailToLoad: func(c core.Config, msg string) bool { return c.GOOS == "plan9" }}
+}
 
 const txtarFile = "golang.org/x/tools/txtar"
 
